@@ -33,6 +33,10 @@ CLAIMED = {
         text="Categorical.tla defines sampling as 'an index of positive probability whose closed cumulative interval contains r'; TLC checks non-emptiness and the quadrature theorem (each index is hit K p_i +- 1 times over the midpoint grid) on every weight vector of length <= 5 over 0..3 and emits the allowed index set for r = 0, 1-ulp, grid midpoints and both sides of every threshold; the real Categorical (f32/f64, 3 unnormalised scalings, vectors up to length 64 with zeros anywhere) is driven with exactly those variates through Categorical::with_rng; logp and normalisation are compared with ln(w_i/W).",
         note="Trusted: TLC, crafted xoshiro256++ state (variate checked indirectly by the strict cases), float comparison of logp. Exactly at a threshold either neighbour is accepted; a zero-probability index never.",
         ref="DESIGN.md 4.9, 5/C16", technique="TLC-enumerated weight vectors and variate classes (Categorical.tla) replayed into the real sampler with injected uniforms"),
+    "C15": dict(
+        text="Dist.tla states the built-in log-densities and gradients as exact affine forms / rationals on integer lattices with dyadic scalings; TLC proves on the lattice that each stated gradient is the gradient of the stated log-density (exact finite-difference stencils), symmetry of the proposal density and positivity of the quadratic form, and emits every case; each case is evaluated through every public path (Gaussian2D f32/f64, DiffableGaussian2D batched/single/gradient on both backends with batch sizes 1..64, IsotropicGaussian logp both argument orders/target form/seeded sampling, Rosenbrock2D, RosenbrockND) and compared at f32-level accuracy.",
+        note="Trusted: TLC, f64 evaluation of ln(2 pi), ln 2, ln det in harness/src/c15.rs. Values between lattice points are not enumerated (DESIGN section 8).",
+        ref="DESIGN.md 4.9, 5/C15", technique="TLC-enumerated lattice cases with exact symbolic oracle and gradient lemmas (Dist.tla) replayed into every public evaluation path"),
 }
 
 PENDING_REASON = "check not built yet in this round (planned: see DESIGN.md section 5); not claimed until its TLC + conformance check exists"
